@@ -1,5 +1,5 @@
 CONSTANTS
-  MaxLen = 4
+  MaxLen = 3
   MaxArr = 3
   MaxCap = 2
   Full = FALSE
